@@ -27,6 +27,9 @@ type Scenario struct {
 	// the oracle, which reports an outcome signature and possibly a violation.
 	Make func() (body func(), check func(*zzvsched.Exec) (string, *Violation))
 	NoFP bool // disable the happens-before state cache
+	// Final, if set, judges the SET of executions (outcome signature -> count) after the scenario has been
+	// explored completely by one worker; for properties about what must be reachable, not about one run.
+	Final func(outcomes map[string]int64) *Violation
 }
 
 // Found is a violating execution.
@@ -35,6 +38,7 @@ type Found struct {
 	Prefix   []int
 	V        *Violation
 	Trace    []string
+	SetLevel bool // found by Scenario.Final: a judgement about the set of executions, replayed by re-exploring the scenario
 }
 
 // Stats is what an exploration covered.
@@ -200,6 +204,11 @@ func Explore(sc *Scenario, opt Options) (*Stats, []*Found) {
 		}
 		if it.depth == 0 && rootKids >= 6*opt.Shards {
 			splitDepth = 1
+		}
+	}
+	if sc.Final != nil && opt.Shards == 1 && !st.Truncated && len(found) == 0 {
+		if v := sc.Final(st.Outcomes); v != nil {
+			found = append(found, &Found{Scenario: sc.Name, V: v, SetLevel: true})
 		}
 	}
 	return st, found
